@@ -1,12 +1,13 @@
 import PySMT.Impl.SubstBuild
 import PySMT.Proofs.Coincidence
 import PySMT.Proofs.C05Types
+import PySMT.Proofs.C05Array
 /-!
 # C05 — lemmas about `Build.rebuild` (the manager constructors applied to new children)
 
 * `rebuild_generic`  : for a node type without normalisation the raw node is built
 * `rebuild_self`     : on a normal node, rebuilding with the same children is the identity
-* `bvWidth_of_typeOf`: `bv_width()` agrees with the type checker on well-typed terms
+* `fnodeWidth_of_typeOf`: `bv_width()` agrees with the type checker on well-typed terms
 -/
 namespace PySMT.Build
 open PySMT.C05T
@@ -167,7 +168,7 @@ theorem rebuild_self (op : Op) (p : Payload) (args : List Term) (h : normalNode 
       | cons a rest =>
         simp only at h
         simp only [rebuild, isBvSameWidthOp, if_true, mkBvOp, bvPayload]
-        cases hw : bvWidth a with
+        cases hw : fnodeWidth a with
         | none => simp [hw] at h
         | some w => simp only [hw, beq_iff_eq] at h; simp only [h]
 
@@ -208,12 +209,12 @@ theorem list_map_eq_one {α β} {f : α → β} {l : List α} {x : β} (h : l.ma
   match l, h with
   | [a], h => simp only [List.map, List.cons.injEq, and_true] at h; exact ⟨a, rfl, h⟩
 
-theorem bvWidth_node (op : Op) (args : List Term) (p : Payload) : bvWidth (.node op args p) =
+theorem fnodeWidth_node (op : Op) (args : List Term) (p : Payload) : fnodeWidth (.node op args p) =
     (match op, p with
     | .bvConst, .bv _ w => some w
     | .symbol, .sym s => if s.params.isEmpty then (match s.ret with | .bv w => some w | _ => none) else none
     | .function, .sym f => (match f.ret with | .bv w => some w | _ => none)
-    | .ite, _ => (match args.map bvWidth with | [_, w, _] => w | _ => none)
+    | .ite, _ => (match args.map fnodeWidth with | [_, w, _] => w | _ => none)
     | .arraySelect, _ =>
       (match args.map Term.typeOf with
        | some (.array _ (.bv w)) :: _ => some w
@@ -221,24 +222,24 @@ theorem bvWidth_node (op : Op) (args : List Term) (p : Payload) : bvWidth (.node
     | .bvComp, _ => some 1
     | _, .ints (w :: _) => some w
     | _, _ => none) := by
-  rw [bvWidth.eq_def]; rfl
+  rw [fnodeWidth.eq_def]; rfl
 
-theorem bvWidth_of_typeOf : (t : Term) → t.wt = true → ∀ w, t.typeOf = some (.bv w) → bvWidth t = some w
+theorem fnodeWidth_of_typeOf : (t : Term) → t.wt = true → ∀ w, t.typeOf = some (.bv w) → fnodeWidth t = some w
   | .node op args p, hwt, w, hty => by
     have hch := Term.wt_child hwt
     rw [typeOf_node_ty hwt] at hty
     cases op <;> simp only [tyNode] at hty
     case symbol =>
       split at hty
-      · next s _ => rw [bvWidth_node]; split at hty <;> simp_all
+      · next s _ => rw [fnodeWidth_node]; split at hty <;> simp_all
       · cases hty
     case function =>
       split at hty
-      · next f => rw [bvWidth_node]; split at hty <;> simp_all
+      · next f => rw [fnodeWidth_node]; split at hty <;> simp_all
       · cases hty
     case bvConst =>
       split at hty
-      · rw [bvWidth_node]; simp_all
+      · rw [fnodeWidth_node]; simp_all
       · cases hty
     case ite =>
       split at hty
@@ -247,8 +248,8 @@ theorem bvWidth_of_typeOf : (t : Term) → t.wt = true → ∀ w, t.typeOf = som
         split at hty
         · cases hty
           have hxw : x.wt = true := hch x (by simp)
-          have := bvWidth_of_typeOf x hxw w (by rw [wt_typeOf_some x hxw, hx])
-          rw [bvWidth_node]; simp [this]
+          have := fnodeWidth_of_typeOf x hxw w (by rw [wt_typeOf_some x hxw, hx])
+          rw [fnodeWidth_node]; simp [this]
         · cases hty
       · cases hty
     case arraySelect =>
@@ -258,17 +259,17 @@ theorem bvWidth_of_typeOf : (t : Term) → t.wt = true → ∀ w, t.typeOf = som
         split at hty
         · cases hty
           have haw : a.wt = true := hch a (by simp)
-          rw [bvWidth_node]; simp [wt_typeOf_some a haw, ha]
+          rw [fnodeWidth_node]; simp [wt_typeOf_some a haw, ha]
         · cases hty
       · cases hty
     case bvComp =>
-      rw [bvWidth_node]
+      rw [fnodeWidth_node]
       split at hty
       · split at hty <;> simp_all
       · cases hty
     case bvNot | bvAnd | bvOr | bvXor | bvNeg | bvAdd | bvSub | bvMul | bvUdiv | bvUrem | bvLshl | bvLshr
        | bvSdiv | bvSrem | bvAshr | bvConcat | bvExtract | bvRol | bvRor | bvZext | bvSext =>
-      rw [bvWidth_node]
+      rw [fnodeWidth_node]
       split at hty
       · split at hty <;> simp_all
       · cases hty
@@ -353,8 +354,7 @@ theorem rebuild_nary {op : Op} {p : Payload} {as' : List Term} (h2 : 2 ≤ as'.l
   | _ :: _ :: _, _ => rcases hop with rfl | rfl | rfl | rfl <;> rfl
 
 theorem rebuild_type {op : Op} {p : Payload} {args as' : List Term}
-    (hwt : (Term.node op args p).wt = true) (hn : normalNode op p args = true) (hs : SameTypes args as')
-    (harr : op = .arrayValue → args.length = 1) :
+    (hwt : (Term.node op args p).wt = true) (hn : normalNode op p args = true) (hs : SameTypes args as') :
     (rebuild op p as').wt = true ∧ (rebuild op p as').typeOf = (Term.node op args p).typeOf := by
   by_cases hsp : special op = false
   · rw [rebuild_generic op p as' hsp]; exact node_type hwt hs rfl
@@ -444,12 +444,40 @@ theorem rebuild_type {op : Op} {p : Payload} {args as' : List Term}
     · next w lo hi => simp only [beq_iff_eq] at hn; simp only [← hn]; exact node_type hwt hs rfl
     · simp at hn
   case arrayValue =>
-    match args, harr rfl, hs, hwt with
-    | [d], _, hs, hwt =>
-      obtain ⟨d', rfl, _, _⟩ := hs.one
-      have : rebuild .arrayValue p [d'] = .node .arrayValue [d'] p := by
-        simp [rebuild, mkArray, pairsOf, dictOf, unpairs]
-      rw [this]; exact node_type hwt hs rfl
+    have hτ := wt_typeOf_some _ hwt
+    obtain ⟨idx, e, d, rest, rfl, rfl, hd, hc, hτ'⟩ := Simp.ArrayRules.typeOf_arrayValue_inv hτ
+    obtain ⟨d', rest', rfl, hwd', htd'⟩ := hs.cons
+    have hrt : rest'.map Term.typeOf = rest.map Term.typeOf := by
+      have := hs.ty
+      simp only [List.map_cons, List.cons.injEq] at this
+      exact this.2
+    have hp := (Simp.ArrayRules.chk_pairs idx e rest' (by rw [hrt]; exact hc)).1
+    have hF : ∀ kv ∈ (pyDict (pairsOf rest')).filter (fun kv => kv.2 ≠ d'),
+        (kv.1.wt = true ∧ kv.1.typeOf = some idx) ∧ (kv.2.wt = true ∧ kv.2.typeOf = some e) := by
+      intro kv hkv
+      refine pyDict_all (fun k => k.wt = true ∧ k.typeOf = some idx) (fun v => v.wt = true ∧ v.typeOf = some e)
+        (fun q hq => ?_) kv (List.mem_filter.mp hkv).1
+      have hm := mem_pairsOf hq
+      rw [pairsOf_eq_pairs] at hq
+      exact ⟨⟨hs.wt _ (List.mem_cons_of_mem _ hm.1), (hp q hq).1⟩, ⟨hs.wt _ (List.mem_cons_of_mem _ hm.2), (hp q hq).2⟩⟩
+    have hty : (mkArray (.ty idx) (d' :: rest')).typeOf = some (.array idx e) := by
+      rw [mkArray_cons, unpairs_eq_flatMap, typeOf_node, List.map_cons, htd', hd]
+      show (if typeOfNode.chk idx e _ = true then some (Ty.array idx e) else none) = _
+      rw [Simp.ArrayRules.chk_flatMap idx e _ (fun kv hkv => ⟨(hF kv hkv).1.2, (hF kv hkv).2.2⟩), if_pos rfl]
+    have hrb : rebuild .arrayValue (.ty idx) (d' :: rest') = mkArray (.ty idx) (d' :: rest') := rfl
+    rw [hrb]
+    refine ⟨?_, by rw [hty, hτ]; exact hτ'.symm ▸ rfl⟩
+    have hsome : (typeOfNode .arrayValue (.ty idx) ((d' :: unpairs ((pyDict (pairsOf rest')).filter
+        (fun kv => kv.2 ≠ d'))).map Term.typeOf)).isSome = true := by
+      rw [mkArray_cons, typeOf_node] at hty; rw [hty]; rfl
+    rw [mkArray_cons, wt_node, hsome]
+    simp only [Bool.and_true, List.all_eq_true, List.mem_map, id]
+    rintro _ ⟨x, hx, rfl⟩
+    rcases List.mem_cons.mp hx with rfl | hx
+    · exact hwd'
+    · obtain ⟨kv, hkv, rfl | rfl⟩ := mem_unpairs hx
+      · exact (hF kv hkv).1.1
+      · exact (hF kv hkv).2.1
   case bvConcat =>
     rcases args with _ | ⟨a, _ | ⟨b, _ | ⟨c, r⟩⟩⟩ <;> try (simp [normalNode] at hn; done)
     obtain ⟨a', b', rfl, hwa', hta', hwb', htb'⟩ := hs.two
@@ -460,10 +488,10 @@ theorem rebuild_type {op : Op} {p : Payload} {args as' : List Term}
     split at hty
     · next w tl l r heq =>
       simp only [List.cons.injEq, and_true] at heq
-      have hla := bvWidth_of_typeOf a hwa l (typeOf_of_tyOf hwa heq.1)
-      have hrb := bvWidth_of_typeOf b hwb r (typeOf_of_tyOf hwb heq.2)
-      have hla' := bvWidth_of_typeOf a' hwa' l (by rw [hta']; exact typeOf_of_tyOf hwa heq.1)
-      have hrb' := bvWidth_of_typeOf b' hwb' r (by rw [htb']; exact typeOf_of_tyOf hwb heq.2)
+      have hla := fnodeWidth_of_typeOf a hwa l (typeOf_of_tyOf hwa heq.1)
+      have hrb := fnodeWidth_of_typeOf b hwb r (typeOf_of_tyOf hwb heq.2)
+      have hla' := fnodeWidth_of_typeOf a' hwa' l (by rw [hta']; exact typeOf_of_tyOf hwa heq.1)
+      have hrb' := fnodeWidth_of_typeOf b' hwb' r (by rw [htb']; exact typeOf_of_tyOf hwb heq.2)
       simp only [hla, hrb, beq_iff_eq] at hn
       simp only [rebuild, mkConcat, hla', hrb', ← hn]
       exact node_type hwt hs rfl
@@ -477,8 +505,8 @@ theorem rebuild_type {op : Op} {p : Payload} {args as' : List Term}
     split at hty
     · next w k x heq =>
       simp only [List.cons.injEq, and_true] at heq
-      have hx := bvWidth_of_typeOf a hwa x (typeOf_of_tyOf hwa heq)
-      have hx' := bvWidth_of_typeOf a' hwa' x (by rw [hta']; exact typeOf_of_tyOf hwa heq)
+      have hx := fnodeWidth_of_typeOf a hwa x (typeOf_of_tyOf hwa heq)
+      have hx' := fnodeWidth_of_typeOf a' hwa' x (by rw [hta']; exact typeOf_of_tyOf hwa heq)
       simp only [hx, beq_iff_eq] at hn
       simp only [rebuild, mkRot, hx', ← hn]
       exact node_type hwt hs rfl
@@ -492,8 +520,8 @@ theorem rebuild_type {op : Op} {p : Payload} {args as' : List Term}
     split at hty
     · next w tl x rest heq =>
       simp only [List.cons.injEq, and_true] at heq
-      have hx := bvWidth_of_typeOf a hwa x (typeOf_of_tyOf hwa heq.1)
-      have hx' := bvWidth_of_typeOf a' hwa' x (by rw [hta']; exact typeOf_of_tyOf hwa heq.1)
+      have hx := fnodeWidth_of_typeOf a hwa x (typeOf_of_tyOf hwa heq.1)
+      have hx' := fnodeWidth_of_typeOf a' hwa' x (by rw [hta']; exact typeOf_of_tyOf hwa heq.1)
       simp only [hx] at hn
       split at hn
       · next w2 inc wa hp hw =>
@@ -518,8 +546,8 @@ theorem rebuild_type {op : Op} {p : Payload} {args as' : List Term}
         · exact h
         · rw [if_neg h] at hty; cases hty
       have hx : tyOf a = .bv w := allAre_cons_some hall
-      have h1 := bvWidth_of_typeOf a hwa w (typeOf_of_tyOf hwa hx)
-      have h1' := bvWidth_of_typeOf a' hwa' w (by rw [hta']; exact typeOf_of_tyOf hwa hx)
+      have h1 := fnodeWidth_of_typeOf a hwa w (typeOf_of_tyOf hwa hx)
+      have h1' := fnodeWidth_of_typeOf a' hwa' w (by rw [hta']; exact typeOf_of_tyOf hwa hx)
       simp only [h1, beq_iff_eq] at hn
       simp only [rebuild, isBvSameWidthOp, if_true, mkBvOp, bvPayload, h1', ← hn]
       exact node_type hwt hs rfl
@@ -527,17 +555,17 @@ theorem rebuild_type {op : Op} {p : Payload} {args as' : List Term}
 
 
 /-- what `rebuild` returns on new children of the same types: the raw node with the *old* payload,
-or one of the three normalisations that can fire -/
+or one of the normalisations that can fire (`Array(...)` always goes through the `dict`) -/
 inductive Shape (op : Op) (p : Payload) (as' : List Term) : Term → Prop
   | node : Shape op p as' (.node op as' p)
   | notNot (b : Term) (pl : Payload) : op = .not → as' = [.node .not [b] pl] → Shape op p as' b
   | toRealConst (v : Int) : op = .toReal → as' = [.node .intConst [] (.i v)] → Shape op p as' (.real v)
   | divConst (a' : Term) (c : Rat) : op = .div → c ≠ 0 → as' = [a', .node .realConst [] (.q c)] →
       Shape op p as' (.node .times [a', .real (1 / c)] .none)
+  | array : op = .arrayValue → Shape op p as' (mkArray p as')
 
 theorem rebuild_shape {op : Op} {p : Payload} {args as' : List Term}
-    (hwt : (Term.node op args p).wt = true) (hn : normalNode op p args = true) (hs : SameTypes args as')
-    (harr : op = .arrayValue → args.length = 1) :
+    (hwt : (Term.node op args p).wt = true) (hn : normalNode op p args = true) (hs : SameTypes args as') :
     Shape op p as' (rebuild op p as') := by
   by_cases hsp : special op = false
   · rw [rebuild_generic op p as' hsp]; exact .node
@@ -595,13 +623,7 @@ theorem rebuild_shape {op : Op} {p : Payload} {args as' : List Term}
     split at hn
     · next w lo hi => simp only [beq_iff_eq] at hn; simp only [← hn]; exact .node
     · simp at hn
-  case arrayValue =>
-    match args, harr rfl, hs, hwt with
-    | [d], _, hs, hwt =>
-      obtain ⟨d', rfl, _, _⟩ := hs.one
-      have : rebuild .arrayValue p [d'] = .node .arrayValue [d'] p := by
-        simp [rebuild, mkArray, pairsOf, dictOf, unpairs]
-      rw [this]; exact .node
+  case arrayValue => exact .array rfl
   case bvConcat =>
     rcases args with _ | ⟨a, _ | ⟨b, _ | ⟨c, r⟩⟩⟩ <;> try (simp [normalNode] at hn; done)
     obtain ⟨a', b', rfl, hwa', hta', hwb', htb'⟩ := hs.two
@@ -612,10 +634,10 @@ theorem rebuild_shape {op : Op} {p : Payload} {args as' : List Term}
     split at hty
     · next w tl l r heq =>
       simp only [List.cons.injEq, and_true] at heq
-      have hla := bvWidth_of_typeOf a hwa l (typeOf_of_tyOf hwa heq.1)
-      have hrb := bvWidth_of_typeOf b hwb r (typeOf_of_tyOf hwb heq.2)
-      have hla' := bvWidth_of_typeOf a' hwa' l (by rw [hta']; exact typeOf_of_tyOf hwa heq.1)
-      have hrb' := bvWidth_of_typeOf b' hwb' r (by rw [htb']; exact typeOf_of_tyOf hwb heq.2)
+      have hla := fnodeWidth_of_typeOf a hwa l (typeOf_of_tyOf hwa heq.1)
+      have hrb := fnodeWidth_of_typeOf b hwb r (typeOf_of_tyOf hwb heq.2)
+      have hla' := fnodeWidth_of_typeOf a' hwa' l (by rw [hta']; exact typeOf_of_tyOf hwa heq.1)
+      have hrb' := fnodeWidth_of_typeOf b' hwb' r (by rw [htb']; exact typeOf_of_tyOf hwb heq.2)
       simp only [hla, hrb, beq_iff_eq] at hn
       simp only [rebuild, mkConcat, hla', hrb', ← hn]
       exact .node
@@ -629,8 +651,8 @@ theorem rebuild_shape {op : Op} {p : Payload} {args as' : List Term}
     split at hty
     · next w k x heq =>
       simp only [List.cons.injEq, and_true] at heq
-      have hx := bvWidth_of_typeOf a hwa x (typeOf_of_tyOf hwa heq)
-      have hx' := bvWidth_of_typeOf a' hwa' x (by rw [hta']; exact typeOf_of_tyOf hwa heq)
+      have hx := fnodeWidth_of_typeOf a hwa x (typeOf_of_tyOf hwa heq)
+      have hx' := fnodeWidth_of_typeOf a' hwa' x (by rw [hta']; exact typeOf_of_tyOf hwa heq)
       simp only [hx, beq_iff_eq] at hn
       simp only [rebuild, mkRot, hx', ← hn]
       exact .node
@@ -644,8 +666,8 @@ theorem rebuild_shape {op : Op} {p : Payload} {args as' : List Term}
     split at hty
     · next w tl x rest heq =>
       simp only [List.cons.injEq, and_true] at heq
-      have hx := bvWidth_of_typeOf a hwa x (typeOf_of_tyOf hwa heq.1)
-      have hx' := bvWidth_of_typeOf a' hwa' x (by rw [hta']; exact typeOf_of_tyOf hwa heq.1)
+      have hx := fnodeWidth_of_typeOf a hwa x (typeOf_of_tyOf hwa heq.1)
+      have hx' := fnodeWidth_of_typeOf a' hwa' x (by rw [hta']; exact typeOf_of_tyOf hwa heq.1)
       simp only [hx] at hn
       split at hn
       · next w2 inc wa hp hw =>
@@ -670,8 +692,8 @@ theorem rebuild_shape {op : Op} {p : Payload} {args as' : List Term}
         · exact h
         · rw [if_neg h] at hty; cases hty
       have hx : tyOf a = .bv w := allAre_cons_some hall
-      have h1 := bvWidth_of_typeOf a hwa w (typeOf_of_tyOf hwa hx)
-      have h1' := bvWidth_of_typeOf a' hwa' w (by rw [hta']; exact typeOf_of_tyOf hwa hx)
+      have h1 := fnodeWidth_of_typeOf a hwa w (typeOf_of_tyOf hwa hx)
+      have h1' := fnodeWidth_of_typeOf a' hwa' w (by rw [hta']; exact typeOf_of_tyOf hwa hx)
       simp only [h1, beq_iff_eq] at hn
       simp only [rebuild, isBvSameWidthOp, if_true, mkBvOp, bvPayload, h1', ← hn]
       exact .node
